@@ -69,6 +69,11 @@ impl WorldC {
         let d = Duration::from_millis(dt);
         let s = &mut self.slots[j];
         s.clock_ms += dt;
+        // what waits in the client's socket is read by this update, at the clock this update sets: a datagram from the server's
+        // address refreshes the receive timer then, not when the relay handed it over
+        if self.net.0.borrow().inbox.get(&s.addr).map(|q| q.iter().any(|(_, from)| *from == self.server_addr)).unwrap_or(false) {
+            s.last_from_server_ms = s.clock_ms;
+        }
         let Some((client, transport)) = s.client.as_mut() else { return };
         client.update(d);
         let nc_disc_before = transport.disconnect_reason().is_some();
